@@ -587,6 +587,8 @@ def c20_cli(c):
         ([binary, "exec"], "missing_argument"),
         ([binary, "frobnicate", f"{d}/case_0.rock"], "unknown_subcommand"),
         ([binary, "--no-such-flag"], "unknown_flag"),
+        ([binary], "no_subcommand"),
+        ([binary, "--"], "no_subcommand"),
         # a missing file among several arguments (whether or not several files are usage at all)
         ([binary, "lint", f"{d}/definitely_missing_file.rock", f"{d}/case_0.rock"], "missing_file_first_of_two"),
         ([binary, "lint", f"{d}/case_0.rock", f"{d}/definitely_missing_file.rock"], "missing_file_second_of_two"),
